@@ -12,7 +12,8 @@ VERIF = os.path.dirname(os.path.dirname(os.path.dirname(os.path.abspath(__file__
 class Ctx:
     def __init__(self, facts_path, tables=None, name="repo"):
         self.name = name
-        self.fx = Facts(facts_path, (tables or {}).get("known_functions", {}).get("functions"))
+        kf = (tables or {}).get("known_functions", {})
+        self.fx = Facts(facts_path, kf.get("functions"), kf.get("signatures"))
         self.cg = CallGraph(self.fx)
         self.tables = tables or {}
         self._pg = {}
